@@ -159,6 +159,7 @@ def correspond(ctx):
         lines.append(f"(models {decls} " + " ".join(cs) + ")")
         meta.append(("models", cs, decls, out, s, shadow))
         ctx.case({"decls": decls, "constraints": cs[:3]}, " ".join(cs) if any("(" in c for c in cs) else None)
+    _session_stream(ctx, drv)
     outs = drv.run(lines)
     for m, out in zip(meta, outs):
         if m[0] in ("zval", "eval"):
@@ -191,6 +192,103 @@ def correspond(ctx):
                 oob = [v.id for v in s.variables if isinstance(v, IntVar) and not (v.lo <= asg[f"i{v.id}"] <= v.hi)]
                 if bad or oob:
                     ctx.disagree("find_answer-sol-not-model", constraints=m[1], decls=m[2], sol=asg, violated=bad, out_of_bounds=oob)
+
+
+def _session_stream(ctx, drv):
+    """The Solver state machine itself: random interleavings of declarations (scalars and arrays), nested ensure() with an
+    occasional non-Boolean item, add_answer_key (duplicates, non-variables), find_answer.  Per-operation outcomes and the final
+    (variables, is_answer_key, constraints) are compared with the Lean `SolverState.step` run on the same operations; the
+    external solver's answers are fed to the model as recorded."""
+    from cspuz import Solver
+    from cspuz.expr import BoolVar
+    rng = ctx.rng
+    lines, reals = [], []
+    for _ in range(ctx.n(150, 2000)):
+        s = Solver()
+        s._verif_sems = []
+        ops, outs = [], []
+        bools, ints = [], []
+        for step in range(rng.randint(2, 9)):
+            r = rng.random()
+            if r < 0.2 or not (bools or ints):
+                if rng.random() < 0.5:
+                    v = s.bool_var()
+                    bools.append(v)
+                    ops.append(["bv"])
+                    outs.append(["var", v.id])
+                else:
+                    lo = rng.randint(-2, 1)
+                    hi = lo + rng.randint(0, 2)
+                    v = s.int_var(lo, hi)
+                    ints.append(v)
+                    ops.append(["iv", lo, hi])
+                    outs.append(["var", v.id])
+            elif r < 0.3:
+                n = rng.randint(0, 3)
+                if rng.random() < 0.5:
+                    a = s.bool_array(n) if rng.random() < 0.5 else s.bool_array((1, n))
+                    bools += list(a)
+                    for v in a:
+                        ops.append(["bv"])
+                        outs.append(["var", v.id])
+                else:
+                    a = s.int_array(n, 0, 1)
+                    ints += list(a)
+                    for v in a:
+                        ops.append(["iv", 0, 1])
+                        outs.append(["var", v.id])
+            elif r < 0.6:
+                g = dslgen.Gen(rng, s, bools, ints)
+                items = [g.bool_expr(rng.randint(0, 2))[0] for _ in range(rng.randint(0, 3))]
+                if rng.random() < 0.15:
+                    items.insert(rng.randint(0, len(items)), rng.choice([3, None]) if rng.random() < 0.6 or not ints else rng.choice(ints))
+                nest = items
+                if len(items) >= 2 and rng.random() < 0.4:
+                    nest = [items[0], items[1:]]
+
+                def pn(x):
+                    return ["l"] + [pn(y) for y in x] if isinstance(x, list) else exprio.pexpr(x)
+                try:
+                    s.ensure(nest)
+                    out = "ok"
+                except Exception as e:
+                    out = ["err", core.err_name(e)]
+                ops.append(["ens", pn(nest)])
+                outs.append(out)
+            elif r < 0.8:
+                pool = bools + ints
+                ks = [rng.choice(pool) for _ in range(rng.randint(0, 2))]
+                if rng.random() < 0.1:
+                    ks.append(rng.choice([True, 5]) if rng.random() < 0.5 or not bools else ~rng.choice(bools))
+                try:
+                    s.add_answer_key(ks)
+                    out = "ok"
+                except Exception as e:
+                    out = ["err", core.err_name(e)]
+                ops.append(["key", ["l"] + [exprio.pexpr(k) for k in ks]])
+                outs.append(out)
+            else:
+                try:
+                    res = s.find_answer("z3")
+                    sol = [v.sol for v in s.variables]
+                    ans = "N" if not res else [("T" if x else "F") if isinstance(x, bool) else x for x in sol]
+                    ops.append(["find", ans])
+                    outs.append([res, ["N" if x is None else x for x in sol]])
+                except Exception as e:
+                    ops.append(["find", "N"])
+                    outs.append([["err", core.err_name(e)], []])
+        final = [outs, [exprio.pdecl(v) for v in s.variables], list(s.is_answer_key), [exprio.pexpr(c) for c in s.constraints]]
+        lines.append(sx(["session"] + ops))
+        reals.append(final)
+    res = drv.run(lines)
+    for line, real, out in zip(lines, reals, res):
+        ctx.count("session")
+        ctx.case({"session": line[:300]}, line)
+        want = core.parse_sx(sx(real))
+        got = core.parse_sx(out)
+        if want != got:
+            # the z3 backend leaves sol untouched on UNSAT / the model resets nothing either: compare as printed
+            ctx.disagree("session-state-machine", session=line[:1500], real=sx(real)[:1500], model=out[:1500])
 
 
 def search(ctx, why):
